@@ -202,7 +202,7 @@ def thread_check(scenarios, oracle_threads, tier, accept=True, lines=False, boun
             for run, resp in zip(runs, resps):
                 if run["error"]:
                     continue
-                real_pt = dr.per_thread([[t, (["raise"] if e[0] == "raise" else e[:2])] for t, e in run["trace"]])
+                real_pt = dr.per_thread([[t, (["raise"] if e[0] == "raise" else e[:2])] for t, e in run["trace"] if e[0] != "U"])
                 ok = "error" not in resp
                 if ok:
                     model_pt = dr.per_thread(resp["ev"])
